@@ -36,6 +36,12 @@ struct c16_mix {
     int err[5];
 };
 
+struct c16_accbox {
+    uint32_t tag;
+    uint64_t value;
+    size_t count;
+};
+
 struct c16_table {
     const char *impl; /* "builtin" | "asm" | "fallback" */
     const char *opt;  /* "O0" | "O1" | "O2" */
@@ -48,6 +54,13 @@ struct c16_table {
     int (*chksz[3])(size_t, size_t, size_t *);
     size_t (*satsz[3])(size_t, size_t);
 
+    /* in-place accumulation through a pointer parameter / a struct field (the result location is also the next operand and is
+     * also read as a plain uint64_t / size_t by the caller): op 0 = add, 1 = mul; returns the number of failed steps, the value
+     * is left in *acc (callers of the checked functions write code like this; an implementation that stores its result
+     * through a differently typed lvalue is only wrong here, and only when optimised) */
+    int (*acc64)(uint64_t *acc, const uint64_t *f, int n, int op);
+    int (*accsz)(size_t *acc, const size_t *f, int n, int op);
+    int (*accfield)(struct c16_accbox *box, const uint64_t *f, int n, int op);
     void (*mix64)(uint64_t a, uint64_t b, struct c16_mix *out);
     void (*mix32)(uint32_t a, uint32_t b, struct c16_mix *out);
 
